@@ -282,7 +282,11 @@ class LRI(dict):
             self._init_ll()
 
     def copy(self):
-        return self.__class__(max_size=self.max_size, values=self)
+        with self._lock:
+            # oldest first, skipping the anchor, so the copy evicts in the
+            # same order; reading the links leaves this cache untouched
+            values = self._get_flattened_ll()[1:]
+        return self.__class__(max_size=self.max_size, values=values)
 
     def setdefault(self, key, default=None):
         with self._lock:
